@@ -565,7 +565,8 @@ NameList findComponentCnUnitsNames(const ComponentConstPtr &component)
     std::vector<XmlDocPtr> mathDocs = multiRootXml(mathContent);
     for (const auto &doc : mathDocs) {
         auto rootNode = doc->rootNode();
-        if (rootNode->isMathmlElement("math")) {
+        // Note: a math string which cannot be parsed (e.g. one that refers to an undeclared entity) has no root node.
+        if ((rootNode != nullptr) && rootNode->isMathmlElement("math")) {
             nodeUnitsNames.merge(findCnUnitsNames(rootNode));
         }
     }
@@ -601,7 +602,8 @@ void findAndReplaceComponentCnUnitsNames(const ComponentPtr &component, const st
     std::vector<XmlDocPtr> mathDocs = multiRootXml(mathContent);
     for (const auto &doc : mathDocs) {
         auto rootNode = doc->rootNode();
-        if (rootNode->isMathmlElement("math")) {
+        // Note: a math string which cannot be parsed (e.g. one that refers to an undeclared entity) has no root node.
+        if ((rootNode != nullptr) && rootNode->isMathmlElement("math")) {
             auto originalMath = rootNode->convertToString();
             findAndReplaceCnUnitsNames(rootNode, oldName, newName);
             auto newMath = rootNode->convertToString();
